@@ -145,7 +145,8 @@ class SetupActor:
                         continue
                     self.queue.insert(
                         rng.randint(0, len(self.queue)),
-                        {"op": "config_detuning_map", "weights": ws, "dmm_id": did},
+                        # a slug is a label, not an identity: several maps may carry the same one
+                        dict({"op": "config_detuning_map", "weights": ws, "dmm_id": did}, **({"slug": "dm"} if rng.random() < 0.35 else {})),
                     )
                     self.chan_names.append(did if ndm == 0 or did not in self.chan_names else did)
                     ndm += 1
